@@ -76,6 +76,7 @@ func TestStoreNames(t *testing.T) {
 			}
 		}
 		run++
+		mark := vt.EnvMark()
 		be.wipeAll(ctx)
 		ev := map[string]any{"ev": "Names", "run": run}
 		flags := map[string]bool{"slash": false, "glob": false, "dots": false}
@@ -150,6 +151,9 @@ func TestStoreNames(t *testing.T) {
 		}
 		ev["ws"] = ws
 		ev["queries"] = queries
+		if vt.EnvFailedSince(mark) {
+			return
+		}
 		out.Emit(ev)
 	})
 	t.Logf("name scenarios: %d", run)
